@@ -220,7 +220,7 @@ func c19Units(ctx *core.Ctx) []core.Unit {
 		needRef()
 		c := conf()
 		defer setCPU(0)
-		for _, L := range []int{0, 1, 15, 16, 17, 31, 32, 33, 255, 256, 257, 300} {
+		for _, L := range []int{0, 1, 15, 16, 17, 31, 32, 33, 255, 256, 257, 300, 511, 512, 513, 1000, 1025} {
 			for _, stride := range []int{0, 1, 2, 16, 17} {
 				vals := make([]banderwagon.Element, L)
 				block := make([]int, L)
